@@ -204,6 +204,8 @@ void runCase(std::size_t i, Ctx& ctx)
 	std::vector<int> cfg(mapc::kDims, 0);
 	if (k & 1) cfg[0] = 4;                 // 64 wide
 	if (k & 2) cfg[6] = 5;                 // sources with empty entries
+	if (k == 4) cfg[6] = 7;                // an empty source in front of several used ones
+	if (k == 5) cfg[6] = 8;                // empty sources in between and at the end
 	ref::RMap seed = mapc::makeMap(cfg);
 	Edits h{ ctx, seed, "seed " + std::to_string(k) + " (" + mapc::describe(cfg) + ")" };
 	auto r = mc::bfs(h, ctx, 5000000, ctx.thorough ? 4 : 3, "edits" + std::to_string(k), true);   // all edit histories up to the depth bound
@@ -219,7 +221,7 @@ int main(int argc, char** argv)
 	mc::CheckDef def;
 	def.id = "C06";
 	def.init = enumerate;
-	def.ncases = [](Ctx&) { return nChunks() + 4; };
+	def.ncases = [](Ctx&) { return nChunks() + 6; };
 	def.run = runCase;
 	def.caseTimeoutS = 900;
 	return mc::Main(argc, argv, def);
